@@ -578,11 +578,24 @@ func (sa *Application) removeAsksInternal(allocKey string, detail si.EventRecord
 		// Cleanup total pending resource
 		deltaPendingResource = sa.pending
 		sa.pending = resources.NewResource()
-		for _, ask := range sa.requests {
+		// only the outstanding asks are removed: a request that has been allocated is the record of a live allocation,
+		// dropping it would make a later update from the RM for that allocation look like a brand new ask
+		remaining := make(map[string]*Allocation)
+		for key, ask := range sa.requests {
+			if ask.IsAllocated() {
+				remaining[key] = ask
+				continue
+			}
 			sa.appEvents.SendRemoveAskEvent(sa.ApplicationID, ask.allocationKey, ask.GetAllocatedResource(), detail)
 		}
-		sa.requests = make(map[string]*Allocation)
-		sa.sortedRequests = sortedRequests{}
+		sa.requests = remaining
+		sorted := sortedRequests{}
+		for _, ask := range sa.sortedRequests {
+			if ask.IsAllocated() {
+				sorted = append(sorted, ask)
+			}
+		}
+		sa.sortedRequests = sorted
 		sa.askMaxPriority = configs.MinPriority
 		sa.queue.UpdateApplicationPriority(sa.ApplicationID, sa.askMaxPriority)
 	} else {
